@@ -186,7 +186,7 @@ def run(tier):
                 # one finding per (kind, opcode sequence without operand/address), not per placement
                 opk = key.split('@')[0]
                 k2 = 'C07/%s/%s' % (kind, opk)
-                if k2 in seen:
+                if k2 in seen or sum(1 for x in seen if x.startswith('C07/%s/' % kind)) >= 12:
                     continue
                 seen.add(k2)
                 rep.violation(k2, '%s: bytes %s (%s): %s' % (kind, hexseq, key, detail),
